@@ -49,6 +49,11 @@ import (
 //	            B%4: 0..2 = a confirmation with a free server id (preferred: B/4), 3 = a JSON-RPC error.  After a confirmation
 //	            the server sends notifications for an id no subscription of the client owns (its Subscribe did not return
 //	            successfully): they must reach nobody, and the receive loop must go on taking frames
+//	cancelsubconfirm  cancel the context of a pending (first-time) Subscribe AND hand the server's answer to its request to the
+//	            receive loop, without waiting for the caller       A: which (most recent first)   B%3: order as for cancelreply
+//	            (B/3)%4: 0..2 = confirmation with a free server id (preferred: B/12), 3 = JSON-RPC error.  The Subscribe may return
+//	            its subscription (which then owns the id; since its context is dead, notifications for it may be dropped but
+//	            must never go elsewhere) or the context error (then the id is nobody's, as after lateconfirm)
 //	reconnect   drop the connection and run the after-connect callback   A: k>0 = the k-th send of the callback fails
 //	            B (only after "down"): 0 = requests blocked in Send go out before the callback runs, 1 = after it
 //	hold        like notify for a live server id, but the harness does not consume it yet: the receive loop stays
@@ -218,6 +223,9 @@ type wsSub struct {
 	unsubID   string
 	unsubDone chan *rpcbackend.RPCError
 	limboID   string // server id whose eth_unsubscribe is waiting for a connection
+	// the context handed to Subscribe was cancelled although Subscribe returned the subscription: the client stops
+	// waiting for a slow reader of such a subscription at once, so a notification for it is delivered or dropped
+	ctxDead bool
 }
 
 type frame struct {
@@ -811,7 +819,15 @@ func (r *wsRun) opHold(a int) {
 	if a < 0 {
 		a = -a
 	}
-	ids := sortedKeys(r.owner)
+	var ids []string
+	for _, id := range sortedKeys(r.owner) {
+		if !r.owner[id].ctxDead {
+			ids = append(ids, id)
+		}
+	}
+	if len(ids) == 0 {
+		return
+	}
 	id := ids[a%len(ids)]
 	s := r.owner[id]
 	r.seq++
@@ -931,6 +947,8 @@ func (r *wsRun) opNotifyID(id string) {
 	switch {
 	case want == nil && got != nil:
 		r.fail("notification-routing", "notification for server id %s reached %s (%s) although no subscription owns that id now", id, got.token, got.state)
+	case want != nil && got == nil && want.ctxDead:
+		r.class("ws:notification-for-subscription-with-dead-context-dropped")
 	case want != nil && got == nil:
 		r.fail("notification-routing", "notification for server id %s owned by %s was dropped", id, want.token)
 	case want != nil && got != want:
@@ -1280,6 +1298,97 @@ func (r *wsRun) opCancelSub(a, b int) {
 		r.cancelled = append(r.cancelled, s.reqID) // the server may still answer it
 	}
 	s.state, s.reqID = stGone, ""
+}
+
+// opCancelSubConfirm: the context of a pending Subscribe is cancelled and the server's answer to its request is handed to
+// the receive loop back to back - neither is waited for.  The Subscribe may win its answer or give up; both are legitimate.
+func (r *wsRun) opCancelSubConfirm(a, b int) {
+	var pend []*wsSub
+	for _, s := range r.subs {
+		if s.state == stPending1 {
+			pend = append(pend, s)
+		}
+	}
+	if len(pend) == 0 || r.isDown {
+		return
+	}
+	if a < 0 {
+		a = -a
+	}
+	if b < 0 {
+		b = -b
+	}
+	s := pend[len(pend)-1-a%len(pend)]
+	reject := (b/3)%4 == 3
+	var msg, id string
+	if reject {
+		msg = fmt.Sprintf(`{"jsonrpc":"2.0","id":%q,"error":{"code":-32002,"message":"rej-%s"}}`, s.reqID, s.token)
+	} else {
+		if id = r.freeServerID(b / 12); id == "" {
+			return
+		}
+		msg = fmt.Sprintf(`{"jsonrpc":"2.0","id":%q,"result":%q}`, s.reqID, id)
+	}
+	if r.held != nil && !r.consumeHeld() { // the loop must be free to take the answer at once
+		return
+	}
+	switch b % 3 {
+	case 0:
+		s.cancel()
+		if !r.deliverRaw(msg) {
+			return
+		}
+	case 1:
+		if !r.deliverRaw(msg) {
+			return
+		}
+		s.cancel()
+	default:
+		if !r.deliverRaw(msg) || !r.deliverRaw("#verif-barrier") {
+			return
+		}
+		s.cancel()
+	}
+	r.class("ws:subscribe-cancelled-as-its-answer-arrives")
+	r.stale = append(r.stale, s.reqID)
+	s.reqID = ""
+	s.ctxDead = true
+	if id != "" {
+		r.serverLive[id] = true // the server has set it up, whatever the caller makes of the answer
+	}
+	res, ok := r.waitSubscribe(s, "its context was cancelled and the server's answer was delivered")
+	if !ok || !r.barrier() {
+		s.state = stGone
+		return
+	}
+	foreign := res.rpcErr != nil && (strings.HasPrefix(res.rpcErr.Message, "rej-") && res.rpcErr.Message != "rej-"+s.token ||
+		strings.HasPrefix(res.rpcErr.Message, "err-") || strings.HasPrefix(res.rpcErr.Message, "stale-") || strings.HasPrefix(res.rpcErr.Message, "late-") || strings.HasPrefix(res.rpcErr.Message, "unsub-"))
+	if foreign || (!reject && res.rpcErr != nil && strings.HasPrefix(res.rpcErr.Message, "rej-")) {
+		r.fail("subscribe-pairing", "Subscribe %s was cancelled while the server's answer arrived: it returned an error that belongs to another request: %v", s.token, res.rpcErr)
+	}
+	switch {
+	case reject:
+		if res.rpcErr == nil {
+			r.fail("subscribe-pairing", "Subscribe %s was rejected by the server while its context was cancelled, yet it returned no error", s.token)
+		}
+		s.handle, s.state = res.s, stRejected
+		if res.s == nil {
+			s.state = stGone
+		}
+	case res.rpcErr == nil && res.s != nil:
+		// it got its confirmation and owns the id
+		s.handle, s.state, s.serverID = res.s, stActive, id
+		r.owner[id] = s
+		r.class("ws:cancel+answer-at-once:subscribe-returned-its-subscription")
+	case res.rpcErr != nil && res.s == nil:
+		// it gave up: the id is nobody's
+		s.state = stGone
+		r.orphans = append(r.orphans, id)
+		r.class("ws:cancel+answer-at-once:subscribe-returned-context-error")
+	default:
+		r.fail("subscribe-pairing", "Subscribe %s, cancelled while its confirmation arrived, returned (%v, %v): neither its subscription nor an error", s.token, res.s, res.rpcErr)
+		s.state = stGone
+	}
 }
 
 // opLateConfirm: the server answers the request of a Subscribe that gave up (context cancelled) before the answer came.
@@ -1672,6 +1781,8 @@ func runWS(c WSCase) (vs []evid.Violation, info wsInfo) {
 			r.opCancelSub(st.A, st.B)
 		case "lateconfirm":
 			r.opLateConfirm(st.A, st.B)
+		case "cancelsubconfirm":
+			r.opCancelSubConfirm(st.A, st.B)
 		case "cancelreply":
 			r.opCancelReply(st.A, st.B)
 		case "unsubcancelreply":
@@ -1813,7 +1924,7 @@ var wsOps = []string{
 	"unsub", "unsub",
 	"cancelreply", "cancelreply", "latereply", "unsubcancelreply",
 	"motif:cancelreply", "motif:cancelreply", "motif:unsubcancelreply",
-	"motif:cancelsub", "motif:cancelsub", "motif:cancelsub", "lateconfirm", "notify:orphan", "notify:live",
+	"motif:cancelsub", "motif:cancelsub", "motif:cancelsub", "lateconfirm", "notify:orphan", "notify:live", "cancelsubconfirm",
 	"unsubreply", "unsubreply",
 	"stale", "stale",
 	"reject", "cancelcall", "cancelsub",
@@ -1828,6 +1939,9 @@ func genWSStep(rt *rapid.T, op string) WSStep {
 	case "lateconfirm":
 		st.A = rapid.IntRange(0, 2).Draw(rt, "a")
 		st.B = rapid.IntRange(0, 19).Draw(rt, "b")
+	case "cancelsubconfirm":
+		st.A = rapid.IntRange(0, 2).Draw(rt, "a")
+		st.B = rapid.IntRange(0, 59).Draw(rt, "b")
 	case "cancelsub":
 		st.A = rapid.IntRange(0, 7).Draw(rt, "a")
 		st.B = rapid.IntRange(0, 1).Draw(rt, "b")
@@ -1859,7 +1973,8 @@ func genWSStep(rt *rapid.T, op string) WSStep {
 //	motif:unsubcancelreply  subscribe, confirm, unsubscribe, the Unsubscribe cancelled as the server's answer arrives, then calls
 //	motif:cancelsub         a Subscribe is cancelled while it is pending - after its request went out, or (one time in four)
 //	                        while the connection is down, before its request could be sent - perhaps beside a live subscription
-//	                        and an outstanding call; the server answers the abandoned request late (confirmation, rejection, or
+//	                        and an outstanding call (one time in three the server's answer arrives as the context is cancelled:
+//	                        cancelsubconfirm); the server answers the abandoned request late (confirmation, rejection, or
 //	                        never) and sends notifications for the id it confirmed; in between and afterwards calls with their
 //	                        replies, new subscriptions with notifications of their own, a reconnect, more notifications for the
 //	                        abandoned id
@@ -1902,7 +2017,14 @@ var wsChunkGen = rapid.Custom(func(rt *rapid.T) []WSStep {
 		if rapid.IntRange(0, 2).Draw(rt, "second") == 1 { // two abandoned requests, answered in either order
 			l = append(l, WSStep{Op: "sub"}, WSStep{Op: "cancelsub", B: 1})
 		}
-		l = append(l, WSStep{Op: "cancelsub", B: 1})
+		if !unsent && rapid.IntRange(0, 2).Draw(rt, "at-once") == 1 {
+			// the cancellation and the server's answer at once: the Subscribe wins its answer or gives up
+			st := genWSStep(rt, "cancelsubconfirm")
+			st.A = 0
+			l = append(l, st)
+		} else {
+			l = append(l, WSStep{Op: "cancelsub", B: 1})
+		}
 		if unsent {
 			l = append(l, genWSStep(rt, "reconnect"))
 		}
